@@ -89,6 +89,16 @@ def modelStep (d : DState) (op : List String) (obs : List (List String)) : DStat
     match filterOf flags hex with
     | some f => ({ reg := { r with nameFilters := f :: r.nameFilters } }, [])
     | none => (d, ["bad-op"])
+  | "tfilter" :: flags :: g :: n :: _ =>       -- -t / -st / -xt / -xst <group>.<name>: one filter of each kind
+    match filterOf flags g, filterOf flags n with
+    | some fg, some fn =>
+      ({ reg := { r with groupFilters := fg :: r.groupFilters, nameFilters := fn :: r.nameFilters } }, [])
+    | _, _ => (d, ["bad-op"])
+  | "vfilter" :: _ :: g :: n :: _ =>           -- "TEST(group, name)": strict group and strict name filter
+    match filterOf "1" g, filterOf "1" n with
+    | some fg, some fn =>
+      ({ reg := { r with groupFilters := fg :: r.groupFilters, nameFilters := fn :: r.nameFilters } }, [])
+    | _, _ => (d, ["bad-op"])
   | ["cmdline"] => (d, [])          -- same filters, built by the real parser on the other side
   | ["runignored"] => ({ reg := { r with runIgnored := true } }, [])
   | ["reverse"] =>
@@ -362,6 +372,16 @@ def specStep (sh : Shadow) (o : Proto.Op) : Except String Shadow := do
   | "nfilter" :: flags :: hex :: _ =>
     let f ← parseFilter flags hex
     return { sh with nf := f :: sh.nf }
+  | "tfilter" :: flags :: g :: n :: _ =>
+    -- documented: -t <group>.<name> = group contains <group> AND name contains <name>; -st exact; -xt / -xst negated
+    let fg ← parseFilter flags g
+    let fn ← parseFilter flags n
+    return { sh with gf := fg :: sh.gf, nf := fn :: sh.nf }
+  | "vfilter" :: _ :: g :: n :: _ =>
+    -- documented: "TEST(group, name)" as printed by -v selects exactly that group and that name
+    let fg ← parseFilter "1" g
+    let fn ← parseFilter "1" n
+    return { sh with gf := fg :: sh.gf, nf := fn :: sh.nf }
   | ["cmdline"] => return sh
   | ["runignored"] => return { sh with runIgnored := true }
   | ["reverse"] =>
